@@ -1,9 +1,39 @@
 package zzverif
 
 import (
+	"math"
+	"strconv"
+
 	otter "github.com/maypok86/otter/v2"
 	"verifsim/simrt"
 )
+
+type sketchStructKey struct {
+	A int
+	B string
+}
+
+// runSketch dispatches on the key type (CompCase.KeyKind): the estimate of a key must count every
+// recording of an *equal* key, whatever its representation - strings built afresh for every call,
+// struct keys, and float keys where +0.0 and -0.0 are one key with two bit patterns.
+func (cr *compRun) runSketch() {
+	switch cr.cc.KeyKind {
+	case 1:
+		runSketchOn(cr, func(k, nth int) string { return strconv.Itoa(k*7) + "/" + strconv.Itoa(nth*0) })
+	case 2:
+		runSketchOn(cr, func(k, nth int) float64 {
+			if k == 0 && nth%2 == 1 {
+				return math.Copysign(0, -1)
+			}
+			return float64(k) * 0.5
+		})
+	case 3:
+		runSketchOn(cr, func(k, nth int) sketchStructKey { return sketchStructKey{A: k, B: "k" + strconv.Itoa(k)} })
+	default:
+		runSketchOn(cr, func(k, nth int) int { return k })
+	}
+}
+
 
 // runSketch (C18): one task. Task 0 holds the recording program:
 //
@@ -12,15 +42,17 @@ import (
 //	admit   - admission decisions on a fresh policy whose sketch is fed to chosen frequencies
 //
 // Hash seeds come from the run's hash stream (HashMode 1: adversarial, heavy collisions).
-func (cr *compRun) runSketch() {
+func runSketchOn[K comparable](cr *compRun, mk func(k, nth int) K) {
 	cc := cr.cc
-	s := otter.VerifNewSketch[int]()
+	s := otter.VerifNewSketch[K]()
+	nth := 0 // alternates the representation of a key between calls
+	key := func(k int) K { nth++; return mk(k, nth) }
 	counts := map[int]int{} // recordings in the current sampling period
 	tracked := []int{}
 	tableLen := 0
 	checkAll := func(where string) {
 		for _, k := range tracked {
-			f := s.Frequency(k)
+			f := s.Frequency(key(k))
 			want := counts[k]
 			if want > 15 {
 				want = 15
@@ -44,7 +76,7 @@ func (cr *compRun) runSketch() {
 				tableLen = s.TableLen()
 				cr.probe["sketch-resized"]++
 				for _, k := range tracked {
-					if f := s.Frequency(k); f != 0 {
+					if f := s.Frequency(key(k)); f != 0 {
 						cr.fail(P("C18"), "sketch.nonzero-after-resize", k, "estimate of key %d is %d right after the table was replaced", k, f)
 					}
 				}
@@ -52,8 +84,8 @@ func (cr *compRun) runSketch() {
 		case "inc":
 			for i := 0; i < op.N; i++ {
 				if s.IsNotInitialized() {
-					s.Increment(op.K)
-					if f := s.Frequency(op.K); f != 0 {
+					s.Increment(key(op.K))
+					if f := s.Frequency(key(op.K)); f != 0 {
 						cr.fail(P("C18"), "sketch.nonzero-before-enable", op.K, "estimate of key %d is %d before frequency tracking was enabled", op.K, f)
 					}
 					cr.probe["sketch-inc-before-enable"]++
@@ -70,16 +102,16 @@ func (cr *compRun) runSketch() {
 				}
 				before := map[int]uint64{}
 				for _, k := range tracked {
-					before[k] = s.Frequency(k)
+					before[k] = s.Frequency(key(k))
 				}
 				sizeBefore := s.Size()
-				s.Increment(op.K)
+				s.Increment(key(op.K))
 				cr.probe["sketch-increments"]++
 				if s.Size() < sizeBefore {
 					// aging step: every estimate is halved (the recorded key was incremented first)
 					cr.probe["sketch-resets"]++
 					for _, k := range tracked {
-						f := s.Frequency(k)
+						f := s.Frequency(key(k))
 						lo, hi := before[k]/2, (min64(before[k]+1, 15))/2
 						if k == op.K {
 							lo = hi
@@ -95,7 +127,7 @@ func (cr *compRun) runSketch() {
 					continue
 				}
 				counts[op.K]++
-				if f := s.Frequency(op.K); f < min64(before[op.K]+1, 15) {
+				if f := s.Frequency(key(op.K)); f < min64(before[op.K]+1, 15) {
 					cr.fail(P("C18"), "sketch.increment-lost", op.K, "recording key %d did not raise its estimate: %d -> %d", op.K, before[op.K], f)
 				}
 				checkAll("after increment")
@@ -171,6 +203,9 @@ func genSketchCase(rng *simrt.Rng) *CompCase {
 	cc := &CompCase{Kind: "sketch", Parallelism: 1}
 	if rng.Intn(3) == 0 {
 		cc.HashMode = 1
+	}
+	if rng.Intn(2) == 0 {
+		cc.KeyKind = 1 + rng.Intn(3)
 	}
 	var ops []COp
 	if rng.Intn(4) == 0 {
